@@ -15,6 +15,9 @@ def run(ctx):
     ctx.assumptions = ['attribute lists are sorted by index (documented precondition)']
     from .. import schemespec
     for cfg, prog in ctx.programs().items():
+        from .. import inbounds
+        ni = inbounds.rule_inbounds(ctx, cfg, prog, only=['keygen', 'nondelegable_keygen', 'qualifykey', 'nondelegable_qualifykey', 'precompute'])
+        ctx.floor('R-INBOUNDS cursor-selected accesses[%s]' % cfg, ni, 14)
         cursor.rule_hidden(ctx, cfg, prog)
         cursor.rule_total_precompute(ctx, cfg, prog)
         ns = schemespec.rule_scheme(ctx, cfg, prog, which=['keygen', 'nondelegable_keygen', 'qualifykey', 'nondelegable_qualifykey', 'precompute', 'encrypt_precomputed', 'decrypt'])
